@@ -1,3 +1,42 @@
-import RelicVerif.Model.Rec
+/-
+C09 — scalar recodings represent exactly the input integer with the digits, length and sparsity their
+contracts promise (Model/Rec.lean mirrors bn_rec_win / slw / naf / reg / jsf of src/bn/relic_bn_rec.c).
+The modular / number-theoretic functions of this property (reductions, exponentiations, inverse, gcd
+variants with Bezout, symbols, roots, primality) are class C: compared with their mathematical definitions
+evaluated in Lean on every correspondence run, not modelled.
+-/
+import RelicVerif.Lemmas.Rec
+
 namespace Relic.Props.C09
+open Relic.Model.Rec
+
+theorem rec_win_exact (cap k w : Nat) (hw : 0 < w) (hk : 0 < k) (ds : List Int) (h : recWin cap k w = some ds) :
+    eval w ds = k ∧ (∀ d ∈ ds, 0 ≤ d ∧ d < 2 ^ w) ∧ ds.length = (bitLen k + w - 1) / w ∧ ds.length ≤ cap :=
+  recWin_spec cap k w hw hk ds h
+
+theorem rec_slw_exact (cap k w : Nat) (hw : 0 < w) (ds : List Int) (h : recSlw cap k w = some ds) :
+    evalSlw ds = k ∧ (∀ d ∈ ds, d = 0 ∨ (d % 2 = 1 ∧ 0 < d ∧ d < 2 ^ w)) ∧ ds.length ≤ bitLen k ∧ ds.length ≤ cap :=
+  recSlw_spec cap k w hw ds h
+
+theorem rec_naf_exact (cap k w : Nat) (hw : 2 ≤ w) (ds : List Int) (h : recNaf cap k w = some ds) :
+    eval 1 ds = k ∧ (∀ d ∈ ds, d = 0 ∨ (d % 2 ≠ 0 ∧ d.natAbs < 2 ^ (w - 1))) ∧
+    (∀ i, (((ds.drop i).take w).countP (· ≠ 0)) ≤ 1) ∧ ds.length ≤ bitLen k + 1 ∧ ds.length ≤ cap :=
+  recNaf_spec cap k w hw ds h
+
+theorem rec_reg_exact (cap k n w : Nat) (hw : 2 ≤ w) (hodd : k % 2 = 1) (hk : k < 2 ^ n) (ds : List Int)
+    (h : recReg cap k n w = some ds) :
+    eval (w - 1) ds = k ∧ ds.length = (n + (w - 1) - 1) / (w - 1) + 1 ∧
+    (∀ d ∈ ds.take ((n + (w - 1) - 1) / (w - 1)), d % 2 ≠ 0 ∧ d.natAbs < 2 ^ (w - 1)) ∧
+    (ds.getLast? = some 0 ∨ ds.getLast? = some 1) ∧ ds.length ≤ cap :=
+  recReg_spec cap k n w hw hodd hk ds h
+
+theorem rec_jsf_exact (cap k l : Nat) (a0 a1 : List Int) (h : recJsf cap k l = some (a0, a1)) :
+    eval 1 a0 = k ∧ eval 1 a1 = l ∧ (∀ d ∈ a0, d.natAbs ≤ 1) ∧ (∀ d ∈ a1, d.natAbs ≤ 1) ∧ a0.length = a1.length ∧
+    a0.length ≤ max (bitLen k) (bitLen l) + 1 :=
+  recJsf_spec cap k l a0 a1 h
+
+/-- non-vacuity -/
+example : recNaf 100 0x1234567 4 = some [7, 0, 0, 0, 0, -5, 0, 0, 0, 3, 0, 0, 0, 0, -3, 0, 0, 0, -7, 0, 0, 0, 5] := by decide
+example : recReg 100 0x1234567 32 4 = some [-1, 5, -3, -5, -3, -1, 1, 1, -7, -7, -7, 1] := by decide
+
 end Relic.Props.C09
